@@ -13,7 +13,8 @@ CONSTANTS DevEarlyReturn,        \* process returns before clean_files when noth
           DevDepsOnExistingOnly, \* dependencies are recorded only for modules that exist (a missing module is not tracked)
           DevCreateNoNotify,     \* a Create event only runs collect_work; dependents of the new file are not restarted
           DevRmdirNoRestart,     \* remove_source(dir) does not restart the work items that depend on a file of that directory
-          Sources, Modules, DirOf, Dirs, Requires, Configs, SerKey, Eff, MaxVer, MaxSteps, MaxIdx
+          Sources, Modules, DirOf, Dirs, Requires, Configs, SerKey, Eff, MaxVer, MaxSteps, MaxIdx,
+          Reach(_, _)            \* Reach(inp, s): the modules the bundler meets from s under the contents inp (transitive; see the universe)
 
 Files == Sources \cup Modules
 NoVer == -1
@@ -32,8 +33,8 @@ NodeOf(p) == CHOOSE i \in Idx : Live(i) /\ slots[i].p = p
 
 Stamp(s, c) ==
   IF ~Good(s) THEN NoStamp
-  ELSE IF \E m \in Requires[s] : ~Good(m) THEN NoStamp
-  ELSE [v |-> inp[s], c |-> Eff[c][s], d |-> {<<m, inp[m]>> : m \in Requires[s]}]   \* Eff: what configuration c amounts to ON FILE s (rule filters)
+  ELSE IF \E m \in Reach(inp, s) : ~Good(m) THEN NoStamp
+  ELSE [v |-> inp[s], c |-> Eff[c][s], d |-> {<<m, inp[m]>> : m \in Reach(inp, s)}]   \* Eff: what configuration c amounts to ON FILE s (rule filters)
 Expected == [s \in Sources |-> IF Exists(s) THEN Stamp(s, cfg) ELSE NoStamp]
 
 \* insert_source: reuse most recently freed slot, else the lowest never-used one
@@ -139,9 +140,9 @@ Process ==
         THEN slots' = sl0 /\ extmap' = em0 /\ UNCHANGED <<out, removeq>>    \* early return skips clean_files
         ELSE LET res == [i \in pend |-> Stamp(sl0[i].p, cfg)] IN
              LET deps == [i \in pend |-> IF ~Good(sl0[i].p) THEN (IF DevDepsOnSuccessOnly \/ DevDepsOnExistingOnly THEN {} ELSE Requires[sl0[i].p])
-                                        ELSE IF DevDepsOnSuccessOnly THEN {m \in Requires[sl0[i].p] : Good(m)}
-                                        ELSE IF DevDepsOnExistingOnly THEN {m \in Requires[sl0[i].p] : Exists(m)}
-                                        ELSE Requires[sl0[i].p]] IN
+                                        ELSE IF DevDepsOnSuccessOnly THEN {m \in Reach(inp, sl0[i].p) : Good(m)}
+                                        ELSE IF DevDepsOnExistingOnly THEN {m \in Reach(inp, sl0[i].p) : Exists(m)}
+                                        ELSE Reach(inp, sl0[i].p)] IN
              LET written == {sl0[i].p : i \in {j \in pend : res[j] # NoStamp}} IN
              /\ slots' = [i \in Idx |-> IF i \in pend THEN [sl0[i] EXCEPT !.st = IF res[i] = NoStamp THEN "err" ELSE "ok", !.deps = deps[i]] ELSE sl0[i]]
              /\ extmap' = [f \in Files |-> em0[f] \cup {i \in pend : f \in deps[i]}]
